@@ -2,7 +2,7 @@
 """Translator: include/adept/Storage.h  ->  lean/AdeptModel/Generated/StorageCfg.lean   (C14, C12)
 
 Storage.h of the working tree (env VERIF_REPO, default /repo) is run through the real preprocessor (`g++ -E -P`) in three
-configurations
+configurations (and, for the census of configuration macros, once per macro WITHOUT and once WITH -fopenmp, i.e. _OPENMP)
 
     thread-safe : -std=c++11 -DADEPT_STORAGE_THREAD_SAFE
     default     : -std=c++11
@@ -43,11 +43,12 @@ def default_out():
     return os.path.join(lean, "AdeptModel", "Generated", "StorageCfg.lean")
 
 
-def preprocess(std, defines):
+def preprocess(std, defines, openmp=False):
+    """openmp=True adds -fopenmp, i.e. the predefined macro _OPENMP (a library user compiling for OpenMP threads)"""
     hdr = os.path.join(vbuild.REPO, "include", "adept", "Storage.h")
     if not os.path.exists(hdr):
         raise TranslateError("no such file: " + hdr)
-    cmd = ["g++", "-E", "-P", "-std=" + std, "-I" + os.path.join(vbuild.REPO, "include")] + ["-D" + d for d in defines] + ["-x", "c++", hdr]
+    cmd = ["g++", "-E", "-P", "-std=" + std, "-I" + os.path.join(vbuild.REPO, "include")] + ["-D" + d for d in defines] + (["-fopenmp"] if openmp else []) + ["-x", "c++", hdr]
     p = subprocess.run(cmd, stdout=subprocess.PIPE, stderr=subprocess.PIPE, text=True)
     if p.returncode != 0:
         raise TranslateError("preprocessing Storage.h (%s %s) failed: %s" % (std, defines, p.stderr[-1500:]))
@@ -266,19 +267,24 @@ def config_macros():
     return sorted(tested)
 
 
-def combos():
-    """[(macro, ok)]: with -DADEPT_STORAGE_THREAD_SAFE -D<macro> the reference counter is still a std::atomic, remove_link/add_link keep
+BASE_ROW = "(no other macro)"
+
+
+def combos(openmp=False):
+    """openmp: preprocess with -fopenmp (_OPENMP defined) as well; the first row (BASE_ROW) is -DADEPT_STORAGE_THREAD_SAFE alone.
+    [(macro, ok)]: with -DADEPT_STORAGE_THREAD_SAFE -D<macro> the reference counter is still a std::atomic, remove_link/add_link keep
     their single read-modify-write shape and the storage counters stay atomic.  A combination the headers reject with #error (or in
     which class Storage is not compiled at all) cannot be built and is left out (returned separately)."""
     from concurrent.futures import ThreadPoolExecutor
-    ms = config_macros()
+    ms = [BASE_ROW] + config_macros()
+    # the wanted shape: the single read-modify-write forms (what C14_thread_safe_build_shape states of the plain thread-safe build)
     ref = preprocess("c++11", ["ADEPT_STORAGE_THREAD_SAFE"])
     bref = class_body(ref)
     want = (remove_link_shape(bref), add_link_shape(bref))
 
     def one(m):
         try:
-            t = preprocess("c++11", ["ADEPT_STORAGE_THREAD_SAFE", m])
+            t = preprocess("c++11", ["ADEPT_STORAGE_THREAD_SAFE"] + ([] if m == BASE_ROW else [m]), openmp=openmp)
         except TranslateError:
             return (m, None)
         try:
@@ -292,9 +298,44 @@ def combos():
             ok = False
         return (m, ok)
 
-    with ThreadPoolExecutor(8) as ex:
+    with ThreadPoolExecutor(5) as ex:
         res = list(ex.map(one, ms))
     return [(m, ok) for m, ok in res if ok is not None], [m for m, ok in res if ok is None]
+
+
+def strip_comments(t):
+    t = re.sub(r"/\*.*?\*/", " ", t, flags=re.S)
+    return re.sub(r"//[^\n]*", " ", t)
+
+
+def stack_ctor_order():
+    """order of the steps of `Stack::Stack(bool activate_immediately)` in include/adept/Stack.h: the body must consist of exactly
+    `initialize(...)`, `new_recording()` and `if (activate_immediately) activate()` (in some order); anything else is not translated"""
+    hdr = os.path.join(vbuild.REPO, "include", "adept", "Stack.h")
+    try:
+        text = strip_comments(open(hdr).read())
+    except OSError:
+        raise TranslateError("no such file: " + hdr)
+    ms = list(re.finditer(r"\bStack\s*\(\s*bool\s+activate_immediately\s*(?:=\s*true\s*)?\)\s*:", text))
+    if len(ms) != 1:
+        raise TranslateError("expected exactly one constructor Stack(bool activate_immediately = true), found %d" % len(ms))
+    i = text.index("{", ms[0].end())
+    if re.search(r"[;}]", re.sub(r"#[^\n]*", "", text[ms[0].end():i])):
+        raise TranslateError("Stack constructor: the member initializer list was not recognised")
+    body = text[i + 1:match_close(text, i)]
+    pats = [("activate", r"if\s*\(\s*activate_immediately\s*\)\s*(?:\{\s*activate\s*\(\s*\)\s*;\s*\}|activate\s*\(\s*\)\s*;)"),
+            ("initialize", r"(?<![\w.>])initialize\s*\(\s*ADEPT_INITIAL_STACK_LENGTH\s*\)\s*;"),
+            ("new_recording", r"(?<![\w.>])new_recording\s*\(\s*\)\s*;")]
+    found, rest = [], body
+    for name, pat in pats:
+        hits = list(re.finditer(pat, body))
+        if len(hits) != 1:
+            raise TranslateError("Stack constructor: expected exactly one `%s` step, found %d in:\n%s" % (name, len(hits), body.strip()[:500]))
+        found.append((hits[0].start(), name))
+        rest = re.sub(pat, " ", rest, count=1)
+    if rest.strip():
+        raise TranslateError("Stack constructor: statements that are not one of the three known steps: " + rest.strip()[:300])
+    return [n for _, n in sorted(found)]
 
 
 DOC = {
@@ -319,12 +360,21 @@ def translate():
             L.append("def %s : Bool := %s" % (k, "true" if v else "false"))
         else:
             L.append('def %s : String := "%s"' % (k, v.replace("\\", "\\\\").replace('"', '\\"')))
+    L += ["", "/-- steps of `Stack::Stack(bool activate_immediately)` (include/adept/Stack.h) in source order -/",
+          "def stackCtorOrder : List String := [%s]" % ", ".join('"%s"' % n for n in stack_ctor_order())]
     cs, skipped = combos()
     L += ["", "/-- every configuration macro the headers test (include guards excepted), paired with: `-DADEPT_STORAGE_THREAD_SAFE` given",
           "    TOGETHER with that macro still yields an atomic `n_links_`, the single read-modify-write shapes of remove_link/add_link and",
           "    atomic storage counters.  Combinations the headers reject (#error) are not listed: %s -/" % (", ".join(skipped) or "none"),
           "def threadSafeUnderConfig : List (String × Bool) := ["]
     L.append(",\n".join('  ("%s", %s)' % (m, "true" if ok else "false") for m, ok in cs))
+    L += ["]", ""]
+    co, skipped_o = combos(openmp=True)
+    L += ["/-- the same census with the compiler's OpenMP switch on (`g++ -E -fopenmp`: the predefined macro `_OPENMP` is defined, as in a",
+          "    user's program compiled for OpenMP threads): `#if`s that combine ADEPT_STORAGE_THREAD_SAFE with `_OPENMP` (either way round)",
+          "    show up in one of the two tables.  First row of both tables: ADEPT_STORAGE_THREAD_SAFE alone.  Rejected: %s -/" % (", ".join(skipped_o) or "none"),
+          "def threadSafeUnderConfigOpenMP : List (String × Bool) := ["]
+    L.append(",\n".join('  ("%s", %s)' % (m, "true" if ok else "false") for m, ok in co))
     L += ["]", "", "end Adept.Generated.StorageCfg", ""]
     return "\n".join(L)
 
